@@ -451,6 +451,11 @@ class ExprMixin:
             if v.kind == KInt:
                 return self.int_to_str(v.z)
             if v.kind == KName:
+                if z3.is_int_value(v.z):
+                    # a name that is a string constant of the program: its text is that constant
+                    for text_, n_ in ops._name_atoms.items():
+                        if n_ == v.z.as_long():
+                            return z3.StringVal(text_)
                 self.ax_buffer.append(ops._atom(self.name_str(v.z)) == v.z)    # atom is the inverse of name_str
                 return self.name_str(v.z)
         # opaque rendering (only ever used in messages)
@@ -672,6 +677,8 @@ class ExprMixin:
         return outs
 
     def getitem(self, st, fr, base, idx):
+        if isinstance(base, SVal) and isinstance(base.kind, KOpt) and isinstance(base.kind.inner, (KList, KDict)) and fr.spec:
+            base = SVal(base.kind.inner, base.t[1:])     # specs are total: guarded by `is not None` where it matters
         if isinstance(base, TupleVal):
             if isinstance(idx, int):
                 return [(st, base.items[idx])]
